@@ -1,0 +1,17 @@
+//go:build verif
+
+// Contracts for table export (pack.go); comment-only, read by /verif/govc, never compiled into olric.
+
+package table
+
+// The exported image carries every bookkeeping field and the written prefix memory[0:offset) byte for byte
+// (garbage included: entry offsets in HKeys refer to positions in that prefix). What msgpack does with it is
+// outside the verifier's reach.
+//@ func Encode(t *Table) ([]byte, error)
+//@   props C11 C17 C03
+//@   flag wired 2
+//@   requires #inv: t.inv()
+//@   ensures #image_fields [C11 C17] internal: p.Offset == t.offset && p.Allocated == t.allocated && p.Inuse == t.inuse && p.Garbage == t.garbage &&
+//@                p.State == t.state && p.HKeys == t.hkeys && p.RecycledAt == t.recycledAt
+//@   ensures #image_memory [C11 C17] internal: len(p.Memory) == t.offset && forall i int :: 0 <= i && i < t.offset ==> p.Memory[i] == t.memory[i]
+//@   ensures #table_untouched [C11]: t.inv()
